@@ -175,6 +175,21 @@ def _kinds():
     def vc_loaded_init(cls, sample):
         return lambda: [(k, v) for k, v in cls(_load(sample)).tags]
 
+    # a comment list in which the values of one key are NOT adjacent (as loaded from such a file, or built through the
+    # list interface): ARTIST, TITLE, artist, Album, title
+    INTER = [("ARTIST", "a1"), ("TITLE", "t"), ("artist", "a2"), ("Album", "x"), ("title", "t2")]
+
+    def vc_interleaved():
+        v = VCommentDict()
+        for pair in INTER:
+            v.append(pair)
+        return v
+
+    def vc_interleaved_ref(q):
+        r = R.VCRef()
+        r.load_pairs(list(INTER))
+        return r
+
     def asf_loaded_ref(q):
         o = ASF(_load("silence-1.wma"))
         inner = R.ASFRef()
@@ -189,6 +204,7 @@ def _kinds():
              VC_KEYS + ["date", "DATE"], VC_VALS, model_init=vc_loaded_init(FLAC, "silence-44-s.flac"), file=True),
         Kind("fvc_ogg", lambda: OggVorbis(_load("empty.ogg")), vc_loaded_ref(OggVorbis, "empty.ogg"), VC_KEYS, VC_VALS,
              model_init=vc_loaded_init(OggVorbis, "empty.ogg"), file=True),
+        Kind("vc_interleaved", vc_interleaved, vc_interleaved_ref, VC_KEYS + ["Album"], VC_VALS, extra_vals=VC_VALS_X),
         Kind("ape", APEv2, lambda q: R.APERef(), APE_KEYS, APE_VALS, model_init=lambda: []),
         Kind("fape", APEv2File, lambda q: R.FileRef(R.APERef), APE_KEYS, APE_VALS, model_init=lambda: None, file=True),
         Kind("id3", ID3, lambda q: R.ID3Ref(), ID3_KEYS, ID3_VALS, model_init=lambda: []),
@@ -254,7 +270,19 @@ def real_apply(o, op):
             a, b = o.popitem()
             return ("ok", ["t", [["s", a], cv(b)]])
         if n == "update":
-            o.update(dict((kk, mk(vv)) for kk, vv in op[2]))
+            # the argument in every form the mapping protocol allows: a dict, a read-only mapping, a mapping that is not a
+            # dict subclass, a list of pairs
+            d = dict((kk, mk(vv)) for kk, vv in op[2])
+            form = op[3] if len(op) > 3 else "dict"
+            if form == "proxy":
+                import types
+                d = types.MappingProxyType(d)
+            elif form == "userdict":
+                import collections
+                d = collections.UserDict(d)
+            elif form == "pairs":
+                d = list(d.items())
+            o.update(d)
             return ("ok", R.NONE)
         # ID3Tags extras
         if n == "add":
@@ -490,7 +518,7 @@ def gen_seq(kind, rng, maxlen, with_model, extra=False):
                 k = key()
                 if k not in ks:
                     ks.append(k)
-            ops.append([n, None, [[k, vgen()] for k in ks]])
+            ops.append([n, None, [[k, vgen()] for k in ks], rng.choice(["dict", "dict", "proxy", "userdict", "pairs"])])
         elif n == "add":
             ops.append([n, None, rng.choice(ID3_VALS)])
         elif n == "setall":
@@ -525,7 +553,7 @@ def shrink_updates(ops, test):
         for i, op in enumerate(ops):
             if op[0] in ("update", "setall") and len(op[2]) > 1:
                 for j in range(len(op[2])):
-                    cand = ops[:i] + [[op[0], op[1], op[2][:j] + op[2][j + 1:]]] + ops[i + 1:]
+                    cand = ops[:i] + [[op[0], op[1], op[2][:j] + op[2][j + 1:]] + list(op[3:])] + ops[i + 1:]
                     if test(cand):
                         ops, changed = cand, True
                         break
